@@ -1,9 +1,9 @@
 (* History.v - C02 as one theorem: ANY finite history of operations (add loose, pack one pack, add directly to a pack in any mode,
-   import, delete, clean), each run as its program from the world the previous one left, refines the obvious key -> bytes map:
+   import, delete, clean, repack one pack), each run as its program from the world the previous one left, refines the obvious key -> bytes map:
    after the whole history the container satisfies the invariant and, for EVERY key, reads back exactly what the map holds - nothing
    lost, nothing altered, no key appearing or disappearing on its own. *)
 From Coq Require Import List ZArith NArith Arith Bool Lia.
-From DOS Require Import Base Store StoreProofs StoreLemmas Mono MonoStep Programs ProgramsProofs PackProofs MaintProofs AddPackProofs ImportProofs
+From DOS Require Import Base Store StoreProofs StoreLemmas Mono MonoStep Programs ProgramsProofs PackProofs MaintProofs RepackProofs AddPackProofs ImportProofs
   C13Proofs C02Proofs.
 Import ListNotations.
 
@@ -21,7 +21,8 @@ Inductive opn :=
 | OTopack (id : Z) (objs : list pobj) (nh twice fs : bool)    (* add_objects_to_pack / add_streamed_objects_to_pack, one pack *)
 | OImport (bs : list (Z * list pobj)) (nh twice fs : bool)    (* the transfer of import_objects *)
 | ODelete (ks : list key)                                     (* delete_objects *)
-| OClean (vacuum : bool) (order : list key).                  (* clean_storage *)
+| OClean (vacuum : bool) (order : list key)                   (* clean_storage *)
+| ORepack (id : Z) (objs : list pobj).                        (* repack_pack: objs = the live objects of the pack with their new stored form *)
 
 Definition prog (w : world) (o : opn) : list event :=
   match o with
@@ -31,6 +32,7 @@ Definition prog (w : world) (o : opn) : list event :=
   | OImport bs nh twice fs => p_import w nh twice fs bs
   | ODelete ks => p_delete w ks
   | OClean vacuum order => p_clean w vacuum order
+  | ORepack id objs => p_repack_one w id objs
   end.
 
 (* what the caller / the environment supplies must make sense in the world the operation starts from (oracles: stored blobs decode to
@@ -40,6 +42,11 @@ Definition pre (w : world) (o : opn) : Prop :=
   | OPack _ objs _ _ => Forall (obj_ok inflate w) objs /\ NoDup (map okey objs) /\ (forall x, In x objs -> ~ In (okey x) (map rkey (db w)))
   | OTopack _ objs _ _ _ => Forall aobj_ok objs
   | OImport bs _ _ _ => Forall (fun b => Forall aobj_ok (snd b)) bs
+  | ORepack id objs =>
+      id <> REPACK /\ get_pack w REPACK = None /\
+      ((rows_of_pack (db w) id <> [] /\ Forall (robj_ok inflate w id) objs /\
+        (forall r, In r (db w) -> rpack r = id -> In (rkey r) (map okey objs))) \/
+       (rows_of_pack (db w) id = [] /\ objs = []))
   | _ => True
   end.
 
@@ -53,7 +60,7 @@ Definition put_all (m : key -> option bytes) (objs : list pobj) (k : key) : opti
 Definition spec (m : key -> option bytes) (o : opn) : key -> option bytes :=
   match o with
   | OAdd _ chunks => fun k => if N.eqb k (H (concat chunks)) then Some (concat chunks) else m k
-  | OPack _ _ _ _ | OClean _ _ => m
+  | OPack _ _ _ _ | OClean _ _ | ORepack _ _ => m
   | OTopack _ objs _ _ _ => put_all m objs
   | OImport bs _ _ _ => put_all m (concat (map snd bs))
   | ODelete ks => fun k => if existsb (N.eqb k) ks then None else m k
@@ -120,7 +127,49 @@ Proof.
       by (rewrite <- app_assoc; reflexivity).
     apply commit_then_nosql. reflexivity.
   - unfold p_clean. apply nosql_pending; [|exact Hp]. rewrite forallb_app. rewrite unlinks_nosql. destruct vacuum; reflexivity.
+  - unfold p_repack_one. destruct (rows_of_pack (db (fst s)) id).
+    + apply nosql_pending; [|exact Hp]. destruct (get_pack (fst s) id); reflexivity.
+    + match goal with |- context [run_events s (EOpenPack REPACK :: ?m ++ ?tl)] =>
+        replace (EOpenPack REPACK :: m ++ tl) with
+          ((EOpenPack REPACK :: m ++ [EFlush (HPack REPACK); EFsync (HPack REPACK); EClose (HPack REPACK);
+              ESql (SUpdateRows (rows_from REPACK 0 objs)); ECommit; EUnlinkPack id; ELinkPack REPACK id; ESql (SRepoint REPACK id)]) ++
+           [ECommit] ++ [EUnlinkPack REPACK]) by (cbn [app]; rewrite <- app_assoc; reflexivity) end.
+      apply commit_then_nosql. reflexivity.
 Qed.
+
+(* ---- repack: exact ---- *)
+Lemma stored_exact_from w w' :
+  Inv w -> (forall k c, stored w k = Some c -> stored w' k = Some c) ->
+  (forall k, In k (map rkey (db w')) -> In k (map rkey (db w))) -> loose w' = loose w ->
+  forall k, stored w' k = stored w k.
+Proof.
+  clear H_inj. intros HI Hpres Hkeys Hl k. destruct (stored w k) as [c|] eqn:Es; [exact (Hpres k c Es)|].
+  assert (Hnk : ~ In k (map rkey (db w))).
+  { intros Hin. apply in_map_iff in Hin as (r & <- & Hr). destruct (manual_recovery H inflate w r HI Hr) as (c & Hs & _). congruence. }
+  unfold Store.stored in *. destruct (find_row (db w') k) as [r|] eqn:F.
+  - exfalso. apply find_row_some in F as [Hin <-]. apply Hnk. apply Hkeys. apply in_map. exact Hin.
+  - unfold get_loose in *. rewrite Hl. destruct (find_row (db w) k) as [r0|] eqn:F0; [|exact Es].
+    exfalso. apply find_row_some in F0 as [Hin <-]. apply Hnk. apply in_map. exact Hin.
+Qed.
+
+Lemma repack_exact w l id objs : Inv w -> pending l = [] -> pre w (ORepack id objs) ->
+  Inv (fst (run_events (w, l) (p_repack_one w id objs))) /\
+  forall k, stored (fst (run_events (w, l) (p_repack_one w id objs))) k = stored w k.
+Proof.
+  intros HI Hp (Hid & Hno & [(Hne & Hobjs & Hcov)|(He & ->)]).
+  - pose proof (repack_always H inflate H_inj w id objs HI Hid Hno Hobjs Hcov l false Hp Hne (length (p_repack_one w id objs))) as (A & B & _).
+    rewrite firstn_all in A, B.
+    destruct (repack_final_state w id objs Hid Hno l Hp Hne) as (w' & l' & Er & _ & _ & Edb & _ & El).
+    rewrite Er in *. cbn [fst] in *. split; [exact A|].
+    apply (stored_exact_from w w' HI); [intros k c Hs; exact (stored_preserved H inflate H_inj w w' k c HI A B Hs)| |exact El].
+    intros k Hk. rewrite Edb in Hk. rewrite (keys_d2 H inflate w id objs HI Hobjs Hcov) in Hk. exact Hk.
+  - pose proof (repack_empty_always H inflate H_inj w l id false HI He (length (p_repack_one w id []))) as (A & B & _).
+    rewrite firstn_all in A, B. split; [exact A|].
+    apply (stored_exact_from w _ HI); [intros k c Hs; exact (stored_preserved H inflate H_inj w _ k c HI A B Hs)| |].
+    + unfold p_repack_one. rewrite He. destruct (get_pack w id); cbn; auto.
+    + unfold p_repack_one. rewrite He. destruct (get_pack w id); reflexivity.
+Qed.
+
 
 (* ---- delete and clean: exact ---- *)
 Lemma delete_exact w l ks k : Inv w -> pending l = [] -> ~ In k ks ->
@@ -185,6 +234,7 @@ Proof.
   - destruct (import_transfers_all H inflate H_inj w l bs nh twice fs HI Hp Hpre) as (w' & l' & Er & I' & _). rewrite Er. exact I'.
   - pose proof (delete_always H inflate w l ks HI Hp (length (p_delete w ks))) as (X & _). rewrite firstn_all in X. exact X.
   - pose proof (clean_always H inflate w l false vacuum order HI Hp (length (p_clean w vacuum order))) as (X & _). rewrite firstn_all in X. exact X.
+  - exact (proj1 (repack_exact w l id objs HI Hp Hpre)).
   - (* OAdd *) intros k. destruct (N.eqb_spec k (H (concat chunks))) as [->|Hne].
     + exact (add_loose_roundtrip H inflate H_inj w l n chunks HI).
     + exact (add_loose_exact H inflate w l n chunks HI k Hne).
@@ -208,6 +258,7 @@ Proof.
     + apply (delete_exact w l ks k HI Hp). intros Hin.
       assert (existsb (N.eqb k) ks = true) by (apply existsb_exists; exists k; split; [exact Hin|apply N.eqb_refl]). congruence.
   - (* OClean *) intros k. exact (clean_exact w l vacuum order k Hp).
+  - (* ORepack *) exact (proj2 (repack_exact w l id objs HI Hp Hpre)).
 Qed.
 
 Lemma spec_ext m1 m2 o : (forall k, m1 k = m2 k) -> forall k, spec m1 o k = spec m2 o k.
